@@ -125,12 +125,14 @@ FUNCTIONS.update({
     buffers={'stream': 'braw(g_body, g_bodylen)'},
     requires=['g_bodylen >= 0 and g_bodylen <= 2147483643', 'allocated(msg.properties)', 'allocated(self._send_queue)',
               'has_key_rec(headers)', '-128 <= headers["__MessageType"] and headers["__MessageType"] <= 127'],
-    ensures=['MuxInv(self)'],
+    ensures=['MuxInv(self)',
+             # one-way messages (discards) lease nothing
+             'implies(msg.is_one_way and old(self._state != ChannelState.Idle or self._open_result is None), forall(t, "int", (t in self._tag_map) == old(t in self._tag_map)) and unchanged("set[int]") and unchanged("TagPool._next") and unchanged("Props.tag") and unchanged("Props.has_tag"))'],
     modifies=['dict[int,tuple[ClientMessageSinkStack,real,Props]]', 'set[int]', 'TagPool._next', 'Props.tag', 'Props.has_tag',
               'deque[tuple[AnySink,any]]', 'AnySink.g_invoked', 'MethodReturnMessage.error', 'MethodReturnMessage.return_value',
               'MethodReturnMessage.stack', '$cls'],
-    raises={'Exception': dict(when='True', ensures=['MuxInv(self)'])},
-    allocates=True,
+    raises={'Exception': dict(when='True', ensures=['MuxInv(self)', 'implies(msg.is_one_way and old(self._state != ChannelState.Idle or self._open_result is None), forall(t, "int", (t in self._tag_map) == old(t in self._tag_map)) and unchanged("set[int]") and unchanged("TagPool._next") and unchanged("Props.tag") and unchanged("Props.has_tag"))'])},
+    allocates=True, may_yield='self._state == ChannelState.Idle and self._open_result is not None',
     yields=[{'at': 'self._open_result.wait()'}],
     ghost=[
       {'after': 'tag = self._tag_pool.get()', 'do': [
@@ -153,4 +155,75 @@ PREDICATES['has_key_rec'] = (['h'], '"__MessageType" in h')
 EXTERNS.update({
   'Queue.put': dict(params=[('item', 'any')], notes='gevent Queue: unbounded, put does not block'),
   'Exception.__init__': dict(params=[('m', 'any')], returns='any', ensures=['result is not None'], allocates=True),
+})
+
+# ---------------------------------------------------------------------------- timeouts in the send path (C11, C12, C01)
+_TAGS_UNCHANGED = ['forall(t, "int", (t in self._tag_map) == old(t in self._tag_map))',
+                   'unchanged("set[int]")', 'unchanged("TagPool._next")', 'unchanged("Props.tag")', 'unchanged("Props.has_tag")']
+
+FUNCTIONS.update({
+  # behavioural contract of the hook: a client-side timeout of a request that is already on the wire
+  # never gives its tag back (only the peer's answer does) -- it may only enqueue a discard notice
+  'MuxSocketTransportSink._OnTimeout': dict(
+    cls='MuxSocketTransportSink', params={'tag': 'int'}, trusted=True,
+    requires=['MuxInv(self)'], ensures=['MuxInv(self)'] + _TAGS_UNCHANGED,
+    raises={'Exception': dict(ensures=['MuxInv(self)'] + _TAGS_UNCHANGED)},
+    modifies=['Props.tag', 'Props.has_tag', '$cls'], allocates=True,
+    notes='abstract hook; SocketTransportSink_mux._OnTimeout and KafkaTransportSink._OnTimeout are verified against this contract'),
+
+  'KafkaTransportSink._OnTimeout': dict(
+    file='scales/kafka/sink.py', cls='KafkaTransportSink', params={'tag': 'int'},
+    requires=['MuxInv(self)'], ensures=['MuxInv(self)'] + _TAGS_UNCHANGED,
+    modifies=[], props=['C11'],
+  ),
+
+  'SocketTransportSink_mux._CreateDiscardMessage': dict(
+    file='scales/thriftmux/sink.py', path='SocketTransportSink._CreateDiscardMessage', cls=None,
+    params={'tag': 'int'}, returns='tuple[MethodDiscardMessage,Stream,HeadersRec]', trusted=True,
+    requires=[], modifies=[], allocates=True,
+    ensures=['result[0].is_one_way', 'result[0].which == tag', 'allocated(result[0].properties)', 'fresh(result[1])',
+             '("__MessageType" in result[2]) and result[2]["__MessageType"] == 66'],
+    notes='builds MethodDiscardMessage(tag) and marshals it with MessageSerializer(None).Marshal -> _Marshal_Tdiscarded (verified under C13); '
+          'the serializer construction (dispatch dictionaries of bound methods) is not modelled'),
+
+  'SocketTransportSink_mux._OnTimeout': dict(
+    file='scales/thriftmux/sink.py', path='SocketTransportSink._OnTimeout', cls='SocketTransportSink_mux', params={'tag': 'int'},
+    # the discard is sent on a transport that is open (the request it discards was written on it)
+    requires=['MuxInv(self)', 'allocated(self._send_queue)', 'self._state == ChannelState.Open'],
+    ensures=['MuxInv(self)'] + _TAGS_UNCHANGED,
+    raises={'Exception': dict(ensures=['MuxInv(self)'] + _TAGS_UNCHANGED)},
+    modifies=['Props.tag', 'Props.has_tag', 'deque[tuple[AnySink,any]]', 'AnySink.g_invoked', 'MethodReturnMessage.error',
+              'MethodReturnMessage.return_value', 'MethodReturnMessage.stack', '$cls',
+              'dict[int,tuple[ClientMessageSinkStack,real,Props]]', 'set[int]', 'TagPool._next'],
+    allocates=True,
+    props=['C11', 'C12'],
+  ),
+
+  # decides, just before a queued frame is written, whether the caller has already been handed TimeoutError
+  'MuxSocketTransportSink._HandleTimeout': dict(
+    cls='MuxSocketTransportSink', params={'msg_properties': 'Props'}, returns='bool',
+    requires=['MuxInv(self)', 'allocated(msg_properties)',
+              # the request has not been answered yet (an answered request's tag slot holds None)
+              'implies("__Tag" in msg_properties, msg_properties["__Tag"] is not None)'],
+    ensures=['MuxInv(self)',
+             # C12: dropped (True) exactly when the caller already holds TimeoutError
+             'result == old(("__Deadline_Event" in msg_properties) and msg_properties["__Deadline_Event"] is not None and truthy(msg_properties["__Deadline_Event"].value))',
+             # C11: a request dropped before it was written gives its own tag back, and only that one
+             'implies(result and old("__Tag" in msg_properties) and old(msg_properties["__Tag"]) != 0, not (old(msg_properties["__Tag"]) in self._tag_map))',
+             'forall(t, "int", implies(not (result and old("__Tag" in msg_properties) and t == old(msg_properties["__Tag"])), (t in self._tag_map) == old(t in self._tag_map)))',
+             # a request that is going to be written keeps its tag
+             'implies(not result, unchanged("set[int]") and unchanged("TagPool._next") and forall(t, "int", (t in self._tag_map) == old(t in self._tag_map)))'],
+    modifies=['dict[int,tuple[ClientMessageSinkStack,real,Props]]', 'set[int]', 'Props.tag', 'Props.has_tag'],
+    allocates=True,
+    props=['C11', 'C12'],
+  ),
+  'MuxSocketTransportSink._HandleTimeout.timeout_proc': dict(
+    captures={'self': 'MuxSocketTransportSink', 'msg_properties': 'Props'},
+    requires=['MuxInv(self)', 'allocated(msg_properties)', 'implies("__Tag" in msg_properties, msg_properties["__Tag"] is not None)'],
+    # the timeout of a request already on the wire: its tag stays leased until the peer answers
+    ensures=['MuxInv(self)'] + _TAGS_UNCHANGED[:3],
+    raises={'Exception': dict(ensures=['MuxInv(self)'] + _TAGS_UNCHANGED[:3])},
+    modifies=['Props.tag', 'Props.has_tag', '$cls'], allocates=True,
+    props=['C11', 'C12', 'C01'],
+  ),
 })
